@@ -669,18 +669,22 @@ func (r *Renderer) renderText(w util.BufWriter, source []byte, node ast.Node, en
 				_, _ = w.WriteString("<br>\n")
 			}
 		} else if n.SoftLineBreak() {
+			writeBreak := true
 			if r.EastAsianLineBreaks != EastAsianLineBreaksNone && len(value) != 0 {
+				// the break is dropped only when the characters on both sides are known
 				sibling := node.NextSibling()
-				if sibling != nil && sibling.Kind() == ast.KindText {
+				for sibling != nil && sibling.Kind() != ast.KindText {
+					sibling = sibling.FirstChild()
+				}
+				if sibling != nil {
 					if siblingText := sibling.(*ast.Text).Value(source); len(siblingText) != 0 {
 						thisLastRune := util.ToRune(value, len(value)-1)
 						siblingFirstRune, _ := utf8.DecodeRune(siblingText)
-						if r.EastAsianLineBreaks.softLineBreak(thisLastRune, siblingFirstRune) {
-							_ = w.WriteByte('\n')
-						}
+						writeBreak = r.EastAsianLineBreaks.softLineBreak(thisLastRune, siblingFirstRune)
 					}
 				}
-			} else {
+			}
+			if writeBreak {
 				_ = w.WriteByte('\n')
 			}
 		}
